@@ -158,6 +158,9 @@ class Kernel:
         if t[0] == "compr":
             loop = self.sx.loops[t[1]]
             flt = simp(("and", tuple(loop.filters))) if loop.filters else TRUE
+            arg = self._argset_by_filter(loop, flt)
+            if arg is not None:
+                return arg
             return KFold(kind="COMPR", term=self.canon(loop.elt, loop.id), source=self._src(loop), filter=self.canon(flt, loop.id),
                          whole=loop.whole, loop=loop, via="comprehension", ckind=loop.ckind)
         if t[0] == "call" and t[1] in ("sum", "max", "min") and len(t[2]) >= 1 and t[2][0][0] == "compr" and len(t[2]) == 1:
@@ -177,6 +180,47 @@ class Kernel:
             return KFold(kind="SUM", init=self.canon_top(t[2][1]), term=self.canon(loop.elt, loop.id), source=self._src(loop),
                          filter=self.canon(flt, loop.id), whole=loop.whole, loop=loop, via="builtin sum")
         return None
+
+    def _argset_by_filter(self, loop, flt):
+        """`[label for ... in S if key == max(keys)]` (directly or zipped with the key list) is an arg-set."""
+        if flt[0] != "cmp" or flt[1] != "==" or loop.ckind != "list":
+            return None
+        sides = (flt[2], flt[3])
+        ext = [x for x in sides if x[0] == "call" and x[1] in ("max", "min") and len(x[2]) == 1 and x[2][0][0] == "compr"]
+        if len(ext) != 1:
+            return None
+        ext = ext[0]
+        cur = sides[0] if sides[1] == ext else sides[1]
+        Lk = self.sx.loops[ext[2][0][1]]
+        if Lk.filters:
+            return None
+        src_t = loop.source
+        elem = ("elem", loop.id)
+        if src_t[0] == "call" and src_t[1] == "zip" and len(src_t[2]) == 2 and src_t[2][1] == ("compr", Lk.id) and src_t[2][0] == Lk.source:
+            # elem = (S-element, key)
+            if cur != simp(("idx", elem, C(1))):
+                return None
+            base = src_t[2][0]
+            s_elem = simp(("idx", elem, C(0)))
+            label = subst(loop.elt, lambda x: ("elem", Lk.id) if x == s_elem else None)
+            if mentions(label, lambda x: x == elem):
+                return None
+            key_t = Lk.elt
+        elif src_t == Lk.source:
+            base = src_t
+            key_here = subst(Lk.elt, lambda x: elem if x == ("elem", Lk.id) else None)
+            if cur != key_here:
+                return None
+            label = subst(loop.elt, lambda x: ("elem", Lk.id) if x == elem else None)
+            key_t = Lk.elt
+        else:
+            return None
+        kws = dict(ext[3])
+        init = self.canon_top(kws["default"]) if "default" in kws else None
+        of = KFold(kind="EXT", sense=ext[1], strict=True, init=init, term=self.canon(key_t, Lk.id), source=self.canon_top(base),
+                   whole=Lk.whole and loop.whole, loop=Lk, via="builtin " + ext[1])
+        return KFold(kind="ARGSET", of=of, label=self.canon(label, Lk.id), ties=True, init=("list", ()), source=self.canon_top(base), filter=TRUE,
+                     whole=Lk.whole and loop.whole, loop=loop, via="filter by == %s(...)" % ext[1])
 
     def _src(self, loop):
         s = loop.source
